@@ -31,6 +31,10 @@ def planted_signature(rec):
         if mode == "N":
             return ("undefined-parameter-not-reported:" + slot,
                     "~p~ is undefined in the %s field (a documented substituted place) but the outcome is %s instead of an 'undefined parameter: ~p~' error at that line" % (slot, L.describe_obs(o)))
+        if c.get("Value"):
+            return ("parameter-value-not-like-written-out:" + slot,
+                    "~p~ in the %s field with p = %r (%s) does not read like the same configuration with %r written there: %s vs %s" % (
+                        slot, c["Value"], "-D" if mode == "D" else "in-file default", c["Value"], L.describe_obs(o), L.describe_obs(rec["RefObs"])))
         if mode in ("B", "FF", "DD"):
             return ("define-precedence:" + {"B": "-D-over-default", "FF": "first-default", "DD": "first-D"}[mode],
                     "with definitions %s / %s the %s field does not read as if the winning value %r were written there: %s" % (
@@ -71,7 +75,7 @@ def run(tier, seed):
         "evaluations": summary["evaluations"],
         "distinct_nontrivial": summary["distinct_nontrivial"],
         "exhaustive": False,
-        "rule": "(1) EXHAUSTIVE over the template's 40 fields x 7 definition modes {-D, default, both, undefined, two defaults, two -D, another parameter whose value is ~p~}: ~p~ planted in one field of a complete valid configuration (title, attention, author, parameter name/value, role name, extends, action name/command, spotlight, cleanup, signal name/pattern, cast role, multiplicity, with-environment, actor name, tempo, every-role of scene and watch, scene action, mood, storyline, edit and repeat-from regexps, repeat count and time, member / signal / variable names, label, the four expression kinds, modality, interpretation target, include name), each run twice (planted, reference); (2) random -D lists x `parameter` clauses x strings through the real parseDefines / parseCfg / preprocReplace, names and values containing ~, ~p~, =, empty; one quarter through a `title` clause of the whole parser; (3) include graphs (chains to depth 12, diamonds, self/mutual/3-cycles, directories, missing, -I only, sibling shadowing, -I order, sibling of the includer not of the main file, `..`, names through parameters) with the reading order predicted by an independent recursive expander; corpus first. distinct_nontrivial = distinct file sets of at least 8 bytes + preprocessing cases.",
+        "rule": "(1) EXHAUSTIVE over the template's 40 fields x 7 definition modes {-D, default, both, undefined, two defaults, two -D, another parameter whose value is ~p~}: ~p~ planted in one field of a complete valid configuration (title, attention, author, parameter name/value, role name, extends, action name/command, spotlight, cleanup, signal name/pattern, cast role, multiplicity, with-environment, actor name, tempo, every-role of scene and watch, scene action, mood, storyline, edit and repeat-from regexps, repeat count and time, member / signal / variable names, label, the four expression kinds, modality, interpretation target, include name), each run twice (planted, reference); plus, for the 15 substituted fields, 2-8 further VALUES of p each (keywords of the field such as `unconstrained` / `always`, boundary numbers, other spellings) under -D and under a default, compared with the same text with the value written out; (2) random -D lists x `parameter` clauses x strings through the real parseDefines / parseCfg / preprocReplace, names and values containing ~, ~p~, =, empty; one quarter through a `title` clause of the whole parser; (3) include graphs (chains to depth 12, diamonds, self/mutual/3-cycles, directories, missing, -I only, sibling shadowing, -I order, sibling of the includer not of the main file, `..`, names through parameters) files with and without a final newline (last line a clause, `end`, an include), with the reading order predicted by an independent recursive expander AND compared with the same text with every included file written in place of its clause (include = splice); corpus first. distinct_nontrivial = distinct file sets of at least 8 bytes + preprocessing cases.",
         "samples": summary["samples"],
         "distribution": {k: summary[k] for k in ("counts", "outcomes", "by_stream", "error_classes", "faults", "graph_shapes", "clause_kinds",
                                                   "max_include_depth_reached", "skipped_escaping_root")},
@@ -107,11 +111,15 @@ def run(tier, seed):
     for idx in L.global_indices(vals["Ograph"], off["graph"]):
         rec = cases["graph"][idx]
         shape = rec["In"].get("Fault", "")
-        report("include-semantics:" + shape.split("-")[0].split("+")[0],
+        sig = "include-semantics:" + shape.split("+")[0].rstrip("0123456789").rstrip("-")
+        if not rec.get("SpliceSame", True) and not rec["Ref"]["Err"]:
+            sig = "include-is-not-splice"
+        report(sig,
                "include graph %s: reference %s, observed %s titles %s" % (
                    shape, ("error class %s at %s chain %s" % (L.CLS.get(rec["Ref"]["Cls"]), rec["Ref"]["Pos"], rec["Ref"]["Chain"])) if rec["Ref"]["Err"] else ("titles %s" % rec["Ref"]["Titles"]),
                    L.describe_obs(rec["Obs"]), rec["Obs"].get("Titles")),
                {"kind": "failing-input", "input": L.short_input(rec["In"]), "observed": rec["Obs"], "reference": rec["Ref"],
+                "inlined_text": (rec.get("Spliced") or {}).get("Files"), "inlined_observed": rec.get("SplicedObs"),
                 "replay": "shakespeare -n -p -I<IP...> Main in a directory holding Files"})
     codes = L.global_codes(vals["Ocodes"])
     for idx, code in enumerate(codes):
